@@ -13,7 +13,13 @@ The temp root is always looked at through its REAL ABSOLUTE location B/tmpjl (B/
 client hands to register/unregister/maybe_unlink is recorded: names that are not absolute paths are
 reported per event ("rel") -- the tracker resolves names in its own process, with its own cwd.
   ev = ["new", c] | ["mkdir", c] | ["reg", c, f] | ["write", c, f] | ["unl", c, f]
-     | ["clean", c, force, allow_non_empty]      (one real manager._clean_temporary_resources call)
+     | ["clean", c, force, allow_non_empty]      (one real manager._clean_temporary_resources(context_id=c, ...) call;
+                                                   force / allow_non_empty None = the keyword is omitted, as at the
+                                                   real call sites: LokyBackend.terminate passes force only)
+     | ["cleanall", m, force, allow_non_empty]   (context_id omitted: all contexts of manager m, as
+                                                   MemmappingExecutor.terminate and MemmappingPool.terminate do)
+  contexts 1, 2 (and 9, the constructor's) belong to manager 1; with "two": true a second manager serves the SAME
+  context ids, labelled 11, 12, 19.  An exception raised by the implementation is recorded ("raised").
      | ["freeze"] | ["thaw"]                     (SIGSTOP / SIGCONT the tracker: it lags behind)
 
 Instrumentation, all from outside (nothing in the repo is edited): the functions
@@ -76,7 +82,7 @@ def client(root, logp, errp, scenario):
             tail = tail[-200:] + data
             if marker.encode() in tail:
                 return True
-            if time.time() - t0 > 30:
+            if time.time() - t0 > 10:
                 return False
             time.sleep(0.0005)
 
@@ -126,38 +132,55 @@ def client(root, logp, errp, scenario):
     else:
         arg = None
         os.environ["JOBLIB_TEMP_FOLDER"] = rel if spelling == "env" else root
-    manager = mr.TemporaryResourcesManager(temp_folder_root=arg, context_id="ctx%d" % CTX0)
+    # manager 1 serves the contexts 1, 2, 9; with "two": a second manager (the executor re-created after an
+    # abort has its own) serves the SAME context ids, labelled 11, 12, 19
+    managers = {}
+    try:
+        managers[1] = mr.TemporaryResourcesManager(temp_folder_root=arg, context_id="ctx%d" % CTX0)
+        if scenario.get("two"):
+            managers[2] = mr.TemporaryResourcesManager(temp_folder_root=arg, context_id="ctx%d" % CTX0)
+    except Exception as e:  # noqa
+        log.write(json.dumps({"ctor_error": "%s: %s" % (type(e).__name__, e),
+                              "tracker": rt._resource_tracker._pid}) + "\n")
+        log.flush()
+        os.kill(os.getpid(), signal.SIGKILL)
+    labels = [1, 2, CTX0] + ([11, 12, 10 + CTX0] if 2 in managers else [])
+    paths = {}
 
-    def folder_of(c):
-        p = os.path.join(root, "joblib_memmapping_folder_%d_%s_ctx%d" % (os.getpid(), manager._id, c))
-        cached = manager._cached_temp_folders.get("ctx%d" % c)
-        if cached is not None and os.path.abspath(cached) != os.path.abspath(p):
-            raise RuntimeError("unexpected folder name %r (expected %r)" % (cached, p))
-        return p
+    def mgr(C):
+        return managers[2 if C >= 10 else 1]
 
-    def file_of(c, f):
-        return os.path.join(folder_of(c), "f%d.pkl" % f)
+    def folder_of(C):
+        cached = mgr(C)._cached_temp_folders.get("ctx%d" % (C % 10))
+        if cached is not None:
+            paths[C] = os.path.abspath(cached)
+        if C not in paths:  # never registered so far: the name the manager would choose
+            paths[C] = os.path.join(root, "joblib_memmapping_folder_%d_%s_ctx%d" % (os.getpid(), mgr(C)._id, C % 10))
+        return paths[C]
+
+    def file_of(C, f):
+        return os.path.join(folder_of(C), "f%d.pkl" % f)
 
     def disk():
         fo, fi = [], []
-        for c in (1, 2, CTX0):
-            d = folder_of(c)
+        for C in labels:
+            d = folder_of(C)
             if os.path.isdir(d):
-                fo.append(c)
+                fo.append(C)
                 for n in sorted(os.listdir(d)):
-                    fi.append([c, int(n[1:-4])])
+                    fi.append([C, int(n[1:-4])])
         return {"folders": fo, "files": fi}
 
     def names(actions):
         out = []
         for kind, x, path in actions:
             lab = None
-            for c in (1, 2, CTX0):
-                if path == folder_of(c):
-                    lab = [c]
+            for C in labels:
+                if path == folder_of(C) and lab is None:
+                    lab = [C]
                 for f in (0, 1, 2):
-                    if path == file_of(c, f):
-                        lab = [c, f]
+                    if path == file_of(C, f) and lab is None:
+                        lab = [C, f]
             out.append([kind, x, lab if lab is not None else path])
         return out
 
@@ -167,35 +190,49 @@ def client(root, logp, errp, scenario):
     state["actions"], state["rel"] = [], []
     for ev in scenario["events"]:
         kind = ev[0]
-        if kind == "new":
-            manager.register_new_context("ctx%d" % ev[1])
-        elif kind == "mkdir":
-            if "ctx%d" % ev[1] in manager._cached_temp_folders:  # resolve_temp_folder_name() would raise otherwise
-                os.makedirs(folder_of(ev[1]), exist_ok=True)
-        elif kind == "reg":
-            rt.register(file_of(ev[1], ev[2]), "file")
-        elif kind == "write":
-            if os.path.isdir(folder_of(ev[1])):
-                with open(file_of(ev[1], ev[2]), "wb") as f:
-                    f.write(b"x" * 64)
-        elif kind == "unl":
-            rt.maybe_unlink(file_of(ev[1], ev[2]), "file")
-        elif kind == "clean":
-            manager._clean_temporary_resources(context_id="ctx%d" % ev[1], force=ev[2], allow_non_empty=ev[3])
-        elif kind == "freeze":
-            if not state["frozen"]:
-                sync()
-                os.kill(rt._resource_tracker._pid, signal.SIGSTOP)
-                state["frozen"] = True
-        elif kind == "thaw":
-            if state["frozen"]:
-                os.kill(rt._resource_tracker._pid, signal.SIGCONT)
-                state["frozen"] = False
+        raised = None
+        try:
+            if kind == "new":
+                mgr(ev[1]).register_new_context("ctx%d" % (ev[1] % 10))
+            elif kind == "mkdir":
+                if "ctx%d" % (ev[1] % 10) in mgr(ev[1])._cached_temp_folders:  # resolve_temp_folder_name() raises otherwise
+                    os.makedirs(folder_of(ev[1]), exist_ok=True)
+            elif kind == "reg":
+                rt.register(file_of(ev[1], ev[2]), "file")
+            elif kind == "write":
+                if os.path.isdir(folder_of(ev[1])):
+                    with open(file_of(ev[1], ev[2]), "wb") as f:
+                        f.write(b"x" * 64)
+            elif kind == "unl":
+                rt.maybe_unlink(file_of(ev[1], ev[2]), "file")
+            elif kind in ("clean", "cleanall"):
+                # the keyword shapes of the real call sites: None = the argument is omitted (its default applies)
+                kw = {}
+                if kind == "clean":
+                    kw["context_id"] = "ctx%d" % (ev[1] % 10)
+                if ev[2] is not None:
+                    kw["force"] = ev[2]
+                if ev[3] is not None:
+                    kw["allow_non_empty"] = ev[3]
+                (mgr(ev[1]) if kind == "clean" else managers[ev[1]])._clean_temporary_resources(**kw)
+            elif kind == "freeze":
+                if not state["frozen"]:
+                    sync()
+                    os.kill(rt._resource_tracker._pid, signal.SIGSTOP)
+                    state["frozen"] = True
+            elif kind == "thaw":
+                if state["frozen"]:
+                    os.kill(rt._resource_tracker._pid, signal.SIGCONT)
+                    state["frozen"] = False
+        except Exception as e:  # noqa: the implementation raised
+            raised = "%s: %s" % (type(e).__name__, str(e)[:150])
         ok = sync()
         rec = {"ev": ev, "actions": names(state["actions"]), "disk": disk(), "synced": ok, "frozen": state["frozen"],
-               "rel": state["rel"]}
+               "rel": state["rel"], "raised": raised}
         state["actions"], state["rel"] = [], []
         log.write(json.dumps(rec) + "\n")
+        if not ok:
+            break
     log.write(json.dumps({"done": True}) + "\n")
     log.flush()
     if scenario.get("end", "kill") == "kill":
@@ -222,7 +259,7 @@ def run_scenario(sc, scratch):
     errf.close()
     out = {"flags": [], "steps": []}
     try:
-        rc = p.wait(timeout=120)
+        rc = p.wait(timeout=90)
     except subprocess.TimeoutExpired:
         p.kill()
         rc = p.wait()
@@ -233,7 +270,11 @@ def run_scenario(sc, scratch):
     try:
         for ln in open(logp):
             rec = json.loads(ln)
-            if "tracker" in rec:
+            if "ctor_error" in rec:
+                tracker = rec.get("tracker")
+                out["ctor_error"] = rec["ctor_error"]
+                done = True
+            elif "tracker" in rec:
                 tracker = rec["tracker"]
                 out["init_actions"] = rec["init_actions"]
                 out["init_rel"] = rec.get("init_rel", [])
@@ -251,10 +292,10 @@ def run_scenario(sc, scratch):
         except OSError:
             pass
         t0 = time.time()
-        while not proc_gone(tracker) and time.time() - t0 < 60:
+        while not proc_gone(tracker) and time.time() - t0 < 20:
             time.sleep(0.002)
         if not proc_gone(tracker):
-            out["flags"].append("tracker-still-running-after-60s")
+            out["flags"].append("tracker-still-running-after-20s")
             try:
                 os.kill(tracker, signal.SIGKILL)
             except OSError:
@@ -279,12 +320,19 @@ def main():
         client(root, logp, errp, json.load(open(scp)))
         return
     scratch = sys.argv[1]
+    hangs = 0
     for ln in sys.stdin:
         if not ln.strip():
             continue
         sc = json.loads(ln)
+        if hangs >= 2:  # early stop: do not wait for the same time-out hundreds of times
+            sys.stdout.write(json.dumps({"skipped": "early stop after 2 time-outs in this stream"}) + "\n")
+            sys.stdout.flush()
+            continue
         try:
             res = run_scenario(sc, scratch)
+            if res.get("flags"):
+                hangs += 1
         except Exception as e:  # noqa
             import traceback
             res = {"harness_error": "%s: %s" % (type(e).__name__, e), "tb": traceback.format_exc()[-600:]}
